@@ -33,6 +33,13 @@ UNITS = [
     ("fault", "F:Tr4,P:u8,F:Tr24@8", "s010", {}),
     ("matrix", "F:Tr8,C:u8,V:u16@2,P:Tr4@4", "s101", {}),
     ("matrix", "P:u32,F:f32", "s100", {}),
+    ("hist", "P:Cnt8,F:Cnt8,C:u16,V:Cnt8", "s100", {"profile": "copymove"}),
+    ("hist", "P:Ctm8,C:u32,V:Ctm8", "s000", {"profile": "lifetime"}),
+    ("hist", "C:u16,V:bptr,P:bptr", "std", {"profile": "uniform"}),
+    ("hist", "P:u32,F:f32", "e100", {"profile": "copymove"}),
+    ("elem", "P:Amp8,C:u32,V:Amp8", "s100", {}),
+    ("cmp", "F:u8,C:u8,V:u8", "s011", {}),
+    ("layout", "P:f64@8,F:B12@8,P:f64@8;C:u8,V:u8,P:u16@4;P:u8,C:u32,V:B24@16,P:u32@16;C:u64@8,V:f32@16,P:u32", None, {"max-cap": 6, "max-span": 5}),
 ]
 
 
